@@ -195,6 +195,8 @@ def obligations(tier):
            harness='C15_slice', func='sample_sel_small', timeout=170, tiers=('quick',)),
         Ob('sample_spread', 'ch', 'sample size 1..8, n 0..12', ['common.Slice.Sample.first/count/gen_indices/indices'],
            harness='C15_slice', func='sample_sel', timeout=1500, tiers=('thorough',)),
+        Ob('parse_option_tokens', 'ch', 'option strings of 1..4 comma separated parts, each one of 12 tokens (empty, None, 0, 3, -2, " 4 ", N, one, x, 1.5, No, +7)',
+           ['common.Slice.create_slice_or_sample', 'Slice.__init__', 'Sample.__init__'], harness='C15_slice', func='parse_tokens', timeout=170 if q else 600, parts=12),
         Ob('parse_option_string_3', 'ch', 'strings of <= 3 characters over "019,- N"', ['common.Slice.create_slice_or_sample', 'Slice.__init__', 'Sample.__init__'],
            harness='C15_slice', func='parse_sel3', timeout=170 if q else 900),
         Ob('parse_option_string_4', 'ch', 'strings of <= 4 characters over "0123456789,- Ne"', ['common.Slice.create_slice_or_sample', 'Slice.__init__', 'Sample.__init__'],
